@@ -11,18 +11,18 @@ BOUNDED = {
     "C02": "end-to-end for selectors other than (row slice, column slice); column steps beyond the representatives of the e2e family only through the callee families",
     "C03": "end-to-end assignment for selectors / value kinds other than (row slice, column slice) = scalar",
     "C04": "numpy's result-dtype table, dtype matrix",
-    "C05": "`mean`, dtype matrix",
+    "C05": "float / dtype matrix (`mean` is proved as sum / count over the callee contracts; float division uninterpreted)",
     "C06": "derived-vs-fresh comparison under every probe (representation independence end to end)",
     "C07": "`sort`, `unique`, `diff` values end to end; float accumulate is the known finding",
     "C08": "`concatenate(axis=1)` (Python loop over rows), `_as_padded_matrix`",
-    "C09": "float / bool column sums, `mean(axis=0)`",
+    "C09": "float / bool column-sum values (`mean(axis=0)` is proved as sum / col_counts over the callee contracts)",
     "C10": "differential histories (the history relation itself)",
     "C11": "histories against a dict (composition of the proved constructor invariant, lookup and assignment contracts is a paper argument)",
     "C12": "totals end to end against `collections.Counter`",
     "C13": "cross-check only",
     "C14": "dtype matrix",
     "C15": "end-to-end composition for masks and windows (mask -> windows -> ragged run-length array -> ravel); slices are composed by a proved lemma",
-    "C16": "`mean`, `histogram`, float `sum`",
+    "C16": "float `sum`, numpy's own `histogram` of weighted values (`mean`, `histogram` are proved as dispatch over the callee contracts)",
     "C17": "constructors (`from_array`, `from_ragged_array`, `from_intervals`), column ranges, column sums / counts / any, `concatenate`",
     "C18": "cross-check only (number of fields / operands is unrolled 1..3, hence not claimed as proof)",
     "C19": "the C01-C09 stand-ins run under both widths and compared",
